@@ -30,7 +30,7 @@ man = {
     "engines": [{
         "name": "lean4-proof+correspondence", "path": "check",
         "serves_properties": [c["property_id"] for c in checks],
-        "kind_free_text": "Lean 4 theorems about an executable model (lean/CijModel, lean/CijProofs); model tied to /repo by a translator for data files (tools/gen_tables.py -> lean/Generated) and by a differential correspondence run of the real Python code against the compiled Lean driver (harness/*.py, lean/Driver.lean); failing-input search with an independent oracle per property",
+        "kind_free_text": "Lean 4 theorems about an executable model (lean/CijModel, lean/CijProofs); model tied to /repo by a translator for data files, expressions and glue code (tools/gen_tables.py + tools/gens/*.py -> lean/Generated) and by a differential correspondence run of the real Python code against the compiled Lean driver (harness/*.py, lean/Driver.lean); failing-input search with an independent oracle per property",
     }],
     "checks": checks,
     "not_applicable": na,
